@@ -126,4 +126,26 @@ type ShapesAnonConstraint[T interface {
 	Put(t T) error
 }
 
+// variadic parameters whose ELEMENT type contains / ends with `any` or `interface{}` without being exactly one of them (the testify
+// template passes a variadic of exactly interface{} / any on without copying it into _va), next to the exact ones as controls
+type Company struct{ N int }
+type Many []int
+
+type ShapesVariadicAnyLike interface {
+	SliceAny(xs ...[]any) error
+	MapAny(prefix string, ms ...map[string]any) (int, error)
+	ChanAny(cs ...<-chan any)
+	PtrAny(ps ...*any) error
+	FuncAny(n int, fs ...func() any) error
+	SliceIface(xs ...[]interface{}) error
+	MapIface(a, b int, ms ...map[string]interface{}) (bool, error)
+	IfaceWithMethods(is ...interface{ Any() any }) error
+	LocalCompany(cs ...Company) error
+	LocalMany(k string, ms ...Many) (Many, error)
+	ForeignCompany(n int, cs ...h1.Company) (h1.Company, error)
+	ExactAny(xs ...any) error
+	ExactIface(p string, xs ...interface{}) (string, error)
+	ExactAnyNoResult(p string, q int, xs ...any)
+}
+
 type ShapesEmpty interface{}
